@@ -83,3 +83,13 @@ func (s *Stream) verifEv(ev string, kv ...any) {
 	}
 	sink(rec)
 }
+
+// VerifPos identifies the stream object and the number of events it has emitted
+// so far, so that hooks of other packages can place their events in this
+// stream's event order.
+func (s *Stream) VerifPos() (uint64, uint64) {
+	if s.verif.id == 0 {
+		s.verif.id = atomic.AddUint64(&verifObj, 1)
+	}
+	return s.verif.id, s.verif.seq
+}
